@@ -101,21 +101,27 @@ async fn reqrep_case(client: &Client, raw: &quinn::Connection, log: &EvLog, run:
     if since < Duration::from_millis(TIMEOUT_MS * 2) {
         tokio::time::sleep(Duration::from_millis(TIMEOUT_MS * 2) - since).await;
     }
-    for (_, p) in &late {
-        let reply = Frame::Message(MessagePayload { headers: p.headers.clone(), message: Bytes::from(format!("re:{}", String::from_utf8_lossy(&p.message))) });
-        replier.send(reply).await?;
-    }
-    // ... right before later requests on both streams, which must get their own replies
+    // ... but only after later requests on both streams are already on their way: a late reply
+    // must not be handed to a later request (which could have re-used its id)
     let mut later = vec![];
     for (s, mut h) in [(1u64, a.clone()), (2u64, b.clone())] {
         let payload = format!("call{}:{:08x}", 100 + s, rng.gen::<u32>());
         later.push(tokio::spawn(async move { (s, h.request(payload).await) }));
     }
+    let mut later_reqs = vec![];
     for _ in 0..2 {
         if let Ok(Some(Ok(Frame::Message(p)))) = tokio::time::timeout(Duration::from_secs(5), replier.next()).await {
-            let reply = Frame::Message(MessagePayload { headers: p.headers.clone(), message: Bytes::from(format!("re:{}", String::from_utf8_lossy(&p.message))) });
-            replier.send(reply).await?;
+            later_reqs.push(p);
         }
+    }
+    for (_, p) in &late {
+        let reply = Frame::Message(MessagePayload { headers: p.headers.clone(), message: Bytes::from(format!("re:{}", String::from_utf8_lossy(&p.message))) });
+        replier.send(reply).await?;
+    }
+    tokio::time::sleep(Duration::from_millis(20)).await;
+    for p in later_reqs {
+        let reply = Frame::Message(MessagePayload { headers: p.headers.clone(), message: Bytes::from(format!("re:{}", String::from_utf8_lossy(&p.message))) });
+        replier.send(reply).await?;
     }
     for h in later {
         let (s, r) = h.await?;
